@@ -210,6 +210,12 @@ func runAgg(s *AggStream, chunkSize int, cut []int) (out []AggOut, err error) {
 	return out, nil
 }
 
+// timeouts counts pipeline runs that did not terminate; after a few of them (each is reported as a failing case) the
+// remaining cases of the operator are skipped so that a broken operator cannot hold the check for minutes
+var timeouts int
+
+func tooManyTimeouts() bool { return timeouts >= 3 }
+
 func execute(ps executor.Processors) error {
 	ex := executor.NewPipelineExecutor(ps)
 	ctx, cancel := context.WithTimeout(context.Background(), 10*time.Second)
@@ -222,6 +228,7 @@ func execute(ps executor.Processors) error {
 			return e
 		}
 	case <-time.After(12 * time.Second):
+		timeouts++
 		return fmt.Errorf("timeout")
 	}
 	ex.Release()
@@ -446,6 +453,9 @@ func runAggCases(r *gen.Rand, n int, fixed []*AggStream) {
 		streams = append(streams, genAggStream(r))
 	}
 	for _, s := range streams {
+		if tooManyTimeouts() {
+			return
+		}
 		total := len(s.Rows)
 		want := aggSpec(s)
 		// the reported time is compared exactly for a single selector on an ascending stream (a descending scan reports
